@@ -2,6 +2,7 @@
 
 spec/Diff.tla      perturbation machine, ground truth, observation relations, reference Diff (design check)
 spec/DiffGen.tla   behaviour generation: every (a, b) of the perturbation phase with its ignore-path sets
+spec/DiffDeep.tla  deep narrow pairs; spec/DiffAlike.tla pairs with two locations whose alt.Path.String() texts are equal
 spec/TraceDiff.tla trace validation: TLC recomputes the truth from the logged pair and judges every observation
 harness/cmd/altops diffexec / diffrand: replay on simple and gen data, both argument orders; seeded random pairs
 """
@@ -22,7 +23,7 @@ CONSTANTS MaxNodes = 0 MaxPert = 0 Rich = FALSE MaxBad = 20000
 CHECK_DEADLOCK FALSE
 POSTCONDITION Post
 """
-API = {"missed-difference": "alt.Diff", "spurious-path": "alt.Diff", "ignored-path-returned": "alt.Diff", "compare-mismatch": "alt.Compare",
+API = {"numeric-reading-differs": "alt.Diff", "missed-difference": "alt.Diff", "spurious-path": "alt.Diff", "ignored-path-returned": "alt.Diff", "compare-mismatch": "alt.Compare",
        "match-wrong": "alt.Match", "not-reflexive": "alt.Diff/Compare/Match"}
 
 
@@ -63,6 +64,43 @@ def deep_cases(ctx):
     return out
 
 
+ALIKE_CFG = """INIT AlikeInit
+NEXT AlikeNext
+CONSTANTS MaxNodes = 0 MaxPert = 0 Rich = FALSE AlikeFull = %s
+CONSTRAINT Emit
+INVARIANT AlikeOK
+CHECK_DEADLOCK FALSE
+"""
+
+
+def canon_tree(v):
+    """members in key order (the generator offers both orders of a key pair; the harness builds maps)"""
+    if v["t"] == "obj":
+        kv = sorted(zip(v["k"], [canon_tree(x) for x in v["v"]]), key=lambda p: p[0])
+        return {"t": "obj", "k": [k for k, _ in kv], "v": [x for _, x in kv]}
+    if v["t"] == "arr":
+        return {"t": "arr", "v": [canon_tree(x) for x in v["v"]]}
+    return v
+
+
+def alike_cases(ctx):
+    """pairs in which two different locations have the same alt.Path.String() text (keys containing '.', '[', ']',
+    digits, the empty key) and one, the other or both differ: DiffAlike.tla"""
+    r = ctx.tlc("DiffAlike", ALIKE_CFG % ("TRUE" if not ctx.quick else "FALSE"), workers=1, timeout=600, heap="4g")
+    if r.error or r.violated:
+        raise Infra("DiffAlike failed:\n" + r.out[-2000:])
+    seen, out = set(), []
+    for c in r.printed("CASE"):
+        c = {"a": canon_tree(c["a"]), "b": canon_tree(c["b"]), "igs": c["igs"]}
+        key = json.dumps([c["a"], c["b"]], sort_keys=True)
+        if key not in seen:
+            seen.add(key)
+            out.append(c)
+    if len(out) < 100:
+        raise Infra("DiffAlike emitted only %d cases" % len(out))
+    return out
+
+
 def judge(ctx, cases):
     """cases: path of an ndjson case file or a list of case dicts {a, b, igs, salt}. -> deviation records"""
     if not isinstance(cases, str):
@@ -84,10 +122,17 @@ def judge(ctx, cases):
     recs, groups = [], {}
     for b in res["bad"]:
         L = json.loads(lines[b["i"] - 1])
-        if b["k"] > 0:
+        if b["k"] > 0 and b["ord"] == "sym":     # the two argument orders of one observation read equal numbers differently
+            ob = L["o"][b["k"] - 1]
+            ign, got = ob["ign"], {"simple": [], "(a,b)": [showp(p) for p in ob["ab"]["d"]], "(b,a)": [showp(p) for p in ob["ba"]["d"]]}
+            del got["simple"]
+            got["orders"] = True
+        elif b["k"] > 0:
             ob = L["o"][b["k"] - 1]
             ign = ob["ign"]
             got = ob[b["ord"]]
+        elif b["kind"] == "numeric-reading-differs":
+            ign, got = [], {"simple": [showp(p) for p in L["xs"][b["ord"]]], "gen": [showp(p) for p in L["xg"][b["ord"]]]}
         else:
             ign, got = [], {"match": L["mab"] if b["ord"] == "ab" else L["mba"]}
         case = {"a": L["a"], "b": L["b"], "igs": [ign], "salt": L["salt"]}
@@ -101,11 +146,11 @@ def judge(ctx, cases):
         g["forms"] |= {"simple", "gen"} if L["f"] == "both" else {L["f"]}
     for (ck, ord_, kind, loc), g in groups.items():
         api = API.get(kind, "alt.Diff/Compare" if loc == "panic" else "alt.Match")
-        if len(g["forms"]) == 1:
+        if len(g["forms"]) == 1 and ord_ != "sym":
             api += "[%s-only]" % sorted(g["forms"])[0]
         case = g["case"]
         wit = {"a": show(case["a"]), "b": show(case["b"]), "ignores": [showp(p) for p in case["igs"][0]],
-               "order": {"ab": "(a,b)", "ba": "(b,a)"}.get(ord_, "(x,x)")}
+               "order": {"ab": "(a,b)", "ba": "(b,a)", "sym": "(a,b) and (b,a)"}.get(ord_, "(x,x)")}
         recs.append({"api": api, "kind": kind, "locus": loc, "witness": wit, "case": case, "detail": {"returned": showobs(g["got"])}})
     judge.last = res
     # per line: 2 Match calls + per ignore set 2 Diff + 2 Compare calls; a "both" line stands for two forms
@@ -144,7 +189,7 @@ def showp(p):
 
 
 def showobs(o):
-    if "match" in o:
+    if "match" in o or "simple" in o or "orders" in o:
         return o
     r = {"diff": [showp(p) for p in o["d"]], "compare": [showp(p) for p in o["c"]], "panic": o["pan"]}
     if "matchself" in o:
@@ -167,6 +212,9 @@ def main(ctx):
     deep = deep_cases(ctx)
     ctx.cov["model_pairs_deep_chains"] = len(deep)
     cases += deep
+    alike = alike_cases(ctx)
+    ctx.cov["model_pairs_alike_paths"] = len(alike)
+    cases += alike
     ctx.cov["model_pairs_exhaustive"] = len(cases)
     if ctx.quick:
         sim = tlc_cases(ctx, 7, 3, True, 6, simulate="num=60", depth=14)
@@ -207,11 +255,15 @@ def main(ctx):
                        "(DiffDeep.tla: 2..11 containers, arrays and objects along the chain, three members at the bottom of which two "
                        "or three differ, path lengths 3..12); for every pair the "
                        "ignore-path sets of IgnSets (none, every location, wildcard variants, sibling indexes, pairs; pairs in "
-                       "both orders); plus seeded random pairs. Each is replayed on simple data (mixed Go integer widths, "
-                       "float32 where exact) and gen data, Diff and Compare in both argument orders, Match both ways. "
+                       "both orders); plus pairs in which two different locations have the same alt.Path.String() text (DiffAlike.tla: keys with '.', '[', ']', "
+                       "digits and the empty key; one, the other or both of the alike leaves perturbed); plus seeded random pairs. Each is replayed on simple data (mixed Go integer widths, "
+                       "float32 where exact) and gen data, and - where the two values have a container subtree in common or an array is a prefix of its "
+                       "counterpart - on simple and gen data whose arguments ALIAS each other (shared maps/slices, one backing array with two lengths), "
+                       "Diff and Compare in both argument orders, Match both ways. "
                        "distinct_nontrivial = number of distinct pairs (a, b) with a different from b; observations = Diff+Compare result pairs judged by TLC.")
     ctx.assumptions += [
-        "int versus numerically equal float may or may not be reported (numeric width is read either way)",
+        "int versus numerically equal float may or may not be reported (numeric width is read either way), but in ONE way: the simple and the gen form of a pair, and the two argument orders, must agree at every location (numeric-reading-differs)",
+        "mixed pairs (one argument simple, the other gen) and typed slices/maps are outside the checked domain",
         "an ignore path ignores the location it names (nil = any single segment) and everything below; a returned path it covers is a deviation; completeness is waived only for a container-kind/presence difference of which the ignore path names an existing descendant",
         "Match: a null fingerprint member matches an absent target member (documented obligation); longer target array, null fingerprint elements beyond the target array's end, int-vs-equal-float are open",
         "values: every Go integer kind at its boundaries incl. uint/uint64 above MaxInt64, near neighbours beyond 2^53, compared exactly as decimal digit records; an unsigned value above MaxInt64 is compared by value with floats (equal when float64(u) is exactly u, open when it is only the rounding) and exactly with integers; float specials incl. +-Inf; no NaN/-0; times differ by whole seconds (TimeTolerance not modelled)",
